@@ -27,7 +27,8 @@ ob("Vdeletetagref_model", "C08", entry="h_Vdeletetagref_model", **MM)
 prop("C08",
      residual="Vattach/Vdetach life cycle and write-back are under contract per call (c08_vgp_life.py; vpackvg's contract only checked bounded) and "
               "over bounded two-handle histories; Vlone/VSlone against an exact model with MAX_REF scaled to 15 (thorough).  NOT decided: "
-              "descriptor reuse inside the H layer, per-file vgroup/vdata trees (tbbt), Vinsert by handle, Vdelete/VSdelete, reopen; equality "
+              "(round 3, c08_lookup.py: Vgetid/VSgetid over a windowed ordered map, Visvg/Visvs/Vgetnext, name/class read-out, Vfind family bounded)  "
+              "descriptor reuse inside the H layer, the tbbt trees themselves, Vinsert by handle, Vdelete/VSdelete, reopen; equality "
               "with the reference model over whole histories",
      assumptions=["A-ATOM1: HAatom_group/HAatom_object are a one-entry finite map chosen by the harness (atom.c not in this unit)",
                   "A-STRLEN: in Vsetname/Vsetclass strlen returns the true length g_len of the harness-built string and "
